@@ -1777,6 +1777,91 @@ func c13r16(c *Ctx, r *Report) {
 	r.floor("minor bumps of the input revision in Run that are not about a new snapshot", n, 1)
 }
 
+// c09r19: jump mode turns a label into a list position: cursor = label index + scroll offset. Labels are
+// handed out per window ROW, and with --gap, --wrap or multi-line items fewer items than rows are on screen, so
+// the sum has to be checked against the length of the list itself (D81: the guard compared the bare label index
+// with the length: the 7th label of a list of 8 scrolled by 2 put the cursor on position 8 — no result — and
+// jump-accept then accepted the last item).
+func c09r19(c *Ctx, r *Report) {
+	l := c.L
+	r.rule("C09-R19", "A (a position computed from a label is inside the list)", "P1",
+		"in Terminal.Loop, every store into Terminal.cy of a sum `x + Terminal.offset` is reached only under a comparison `x + Terminal.offset < Merger.Length()` of the same sum",
+		"the list cursor designates no result while the jump event's actions run, and jump-accept accepts an item the user did not point at")
+	loop := l.Fn("fzf", "(*Terminal).Loop")
+	fCy := l.Field("fzf", "Terminal", "cy")
+	fOff := l.Field("fzf", "Terminal", "offset")
+	mlen := l.Fn("fzf", "(*Merger).Length")
+	if loop == nil || fCy == nil || fOff == nil || mlen == nil {
+		r.unest("anchors", token.NoPos, nil, "anchors Terminal.Loop / cy / offset / Merger.Length", "cannot resolve")
+		return
+	}
+	n := 0
+	for _, fn := range withClosures(loop) {
+		var pc *PathConds
+		eachInstr(fn, func(in ssa.Instruction) {
+			st, ok := in.(*ssa.Store)
+			if !ok {
+				return
+			}
+			if fld, _ := fieldOf(st.Addr); fld != fCy {
+				return
+			}
+			sum, ok := st.Val.(*ssa.BinOp)
+			if !ok || sum.Op != token.ADD {
+				return
+			}
+			var x ssa.Value
+			if fld, _ := loadedField(sum.Y); fld == fOff {
+				x = sum.X
+			} else if fld, _ := loadedField(sum.X); fld == fOff {
+				x = sum.Y
+			}
+			if x == nil {
+				return
+			}
+			if _, isK := constIntVal(x); isK {
+				return
+			}
+			// only label-like addends: values that are not themselves derived from cy / offset
+			derived := false
+			for w := range backwardSlice(x, nil, nil) {
+				if fld, _ := loadedField(w); fld == fCy || fld == fOff {
+					derived = true
+				}
+			}
+			if derived {
+				return
+			}
+			if pc == nil {
+				pc = pathConds(fn)
+			}
+			n++
+			holds, reach := pc.Implies(st.Block(), func(lits []Lit) bool {
+				return hasLit(lits, func(atom ssa.Value, val bool) bool {
+					b, ok := atom.(*ssa.BinOp)
+					if !ok || b.Op != token.LSS || !val {
+						return false
+					}
+					call, ok := b.Y.(*ssa.Call)
+					if !ok || call.Common().StaticCallee() != mlen {
+						return false
+					}
+					s2, ok := b.X.(*ssa.BinOp)
+					if !ok || s2.Op != token.ADD {
+						return false
+					}
+					offY, _ := loadedField(s2.Y)
+					offX, _ := loadedField(s2.X)
+					return offY == fOff && s2.X == x || offX == fOff && s2.Y == x
+				})
+			})
+			r.check(holds && reach, fmt.Sprintf("%s:position #%d computed from a label lies inside the list", relName(loop), n), st.Pos(), fn,
+				"stored only under `label + offset < Length()`", "the cursor is set to label + offset without comparing that sum with the length of the list")
+		})
+	}
+	r.floor("cursor positions computed as label + offset", n, 1)
+}
+
 // round9 runs the round-9 rules of a property (own and shared).
 func round9(c *Ctx, r *Report, prop string) {
 	switch prop {
@@ -1804,6 +1889,7 @@ func round9(c *Ctx, r *Report, prop string) {
 		c08r23(c, r)
 		c13r12(c, r)
 	case "C09":
+		c09r19(c, r)
 		c09r17(c, r)
 		c09r18(c, r)
 		c04r14(c, r) // the position under the cursor designates the item that is accepted
